@@ -3,14 +3,15 @@ import MirVerif.Base.Bits
 
 Model of the code that gives every MIR function a *stable public address*:
 
-* `mir-x86_64.c:155-192`  `short_jmp_pattern`, `long_jmp_pattern`, `_MIR_get_thunk`,
-  `_MIR_get_thunk_addr`, `_MIR_redirect_thunk`;
-* `mir.c:1927-1935`       `MIR_load_module`: the thunk is allocated only when `item->addr == NULL`
-  and is immediately redirected to `undefined_interface`;
-* `mir.c:2064-2075`       `MIR_link`: `set_interface` for every function of `modules_to_link`;
-* `mir-interp.c:2046-2052`, `mir-gen.c:9301-9327,9498-9527,9779-9809,10024-10037`:
-  `MIR_set_interp_interface`, `MIR_gen`/`MIR_set_gen_interface`, `MIR_set_lazy_gen_interface`,
-  `MIR_set_lazy_bb_gen_interface` and the two generation hooks reached by the first call.
+* `mir-x86_64.c`  `short_jmp_pattern`, `long_jmp_pattern`, `_MIR_get_thunk`, `_MIR_get_thunk_addr`,
+  `_MIR_redirect_thunk`;
+* `mir.c`         `MIR_load_module`: the thunk is allocated only when `item->addr == NULL` and is
+  immediately redirected to `undefined_interface`; `MIR_link`: `finish_func_interpretation` and
+  `set_interface` for every function of `modules_to_link`;
+* `mir-interp.c`  `MIR_set_interp_interface`; `mir-gen.c`: `generate_func_code`, `MIR_gen`,
+  `MIR_set_gen_interface`, `generate_func_and_redirect`, `MIR_set_lazy_gen_interface`,
+  `MIR_set_lazy_bb_gen_interface` and the two generation hooks reached by the first call
+  (`generate_func_and_redirect_to_func_code`, `generate_func_and_redirect_to_bb_gen`).
 
 A thunk is 13 bytes.  `redirect` is a transcription of `_MIR_redirect_thunk` (copy a pattern, `memcpy`
 the operands into it); `thunkTarget` is what an x86-64 CPU does when it starts executing these
@@ -39,7 +40,7 @@ def ofLe : List Byte → Nat
 def splice (pat : List Byte) (off : Nat) (src : List Byte) : List Byte :=
   pat.take off ++ src ++ pat.drop (off + src.length)
 
-/-! ## the thunk (mir-x86_64.c:155-192) -/
+/-! ## the thunk (mir-x86_64.c) -/
 
 /-- `short_jmp_pattern`: `jmp rel32` followed by an 8-byte holder of the absolute address -/
 def shortJmpPattern : List Byte := [0xe9, 0, 0, 0, 0, 0, 0, 0, 0, 0, 0, 0, 0]
@@ -188,12 +189,12 @@ def target (s : State) (f : Nat) : Option W64 :=
 
 /-- Histories the API admits: a function is used only after it was loaded and linked (simplified);
 a module whose functions have bb stubs or were interpreted is not loaded again; the generator is not applied to a
-function whose `data` fields are in use (`gen_assert (func_item->data == NULL)`, mir-gen.c:9309):
+function whose `data` fields are in use (`gen_assert (func_item->data == NULL)` in `generate_func_code`):
 by bb stubs, or by the interpreter — `finish_func_interpretation` is reachable only through
 `MIR_link`, so a function that was already interpreted cannot be handed to the generator without
 re-loading it; the bb generator is not applied to a function that already has machine code. -/
 def admissible (s : State) : Event → Bool
-  | .load fs _ => fs.all fun f => !(s f).bbData && !(s f).interpData   -- `assert (item->data == NULL)`, mir.c:1996
+  | .load fs _ => fs.all fun f => !(s f).bbData && !(s f).interpData   -- `assert (item->data == NULL)` in `MIR_link`
   | .link _ _ => true
   | .setIface i f _ =>
     (s f).addr.isSome && !(s f).pending && (match i with
